@@ -88,13 +88,14 @@ Theorem C04_total : forall r pdu, request_wf r -> handle_response r pdu <> Panic
 Proof. exact response_total. Qed.
 Print Assumptions C04_total.
 
-(* every request the API constructs from u16 arguments is well-formed *)
+(* every request the API constructs from u16 arguments is well-formed - including read requests
+   given an arbitrary (start, count) struct literal, which limited_count validates *)
 Theorem C04_built_requests_wf : forall c r, call_wf c -> build c = Ok r -> request_wf r.
 Proof. exact build_wf. Qed.
 Print Assumptions C04_built_requests_wf.
 
 (* non-vacuity: the standard's read-coils example reply (CD 6B 05 for 19 coils from 19), an echo,
-   and a request whose range was NOT validated (struct literal) does reach a panic *)
+   and the unvalidated-range witness of finding F10 *)
 Example C04_example_bits :
   handle_response (RReadCoils (19, 19)) [1; 3; 205; 107; 5]
   = Ok (RespBits (map (fun '(k, b) => (19 + k, b))
@@ -104,5 +105,10 @@ Example C04_example_bits :
 Proof. vm_compute. reflexivity. Qed.
 Example C04_example_echo : handle_response (RWriteMultipleRegisters (1, 2) [10; 258]) [16; 0; 1; 0; 2] = Ok (RespRange 1 2).
 Proof. vm_compute. reflexivity. Qed.
-Example C04_unvalidated_range_panics : handle_response (RReadCoils (65535, 2)) [1; 1; 3] = Panic.
+(* the iterators' u16 additions do overflow for a range that was never validated ... *)
+Example C04_unvalidated_range_would_panic : handle_response (RReadCoils (65535, 2)) [1; 1; 3] = Panic.
+Proof. vm_compute. reflexivity. Qed.
+(* ... but the repaired API (limited_count re-validates, 3d39d18 / F10) cannot construct such a request
+   from any (start, count) literal: C04_built_requests_wf, here on the witness *)
+Example C04_unvalidated_range_not_constructible : build (CReadCoils 65535 2) = Err EAddressOverflow.
 Proof. vm_compute. reflexivity. Qed.
